@@ -7,7 +7,7 @@ from harness import modelgen as G
 PID = "C18"; COQ_TARGET = "C18"
 SCHEMES = ["fourth_order_central_difference", "central_difference", "backward_difference", "forward_difference"]
 RULE = ("random smooth networks (mass action order 0-4 with repeats, four Hill kinds with integer and fractional exponents, general rational / exponential rates), "
-        "1-3 species, 1-3 reactions, states in [0.5,6] (mass-action networks also with one component below the stencil's reach), parameters >= 0.1, every parameter name, four schemes; non-trivial = a non-linear rate law is present")
+        "1-3 species, 1-3 reactions, states in [0.5,6] (mass-action networks also with one component below the stencil's reach), parameters >= 0.1, every parameter name, four schemes; plus small production/degradation networks evaluated AT exact fixed points / nullcline points (a rate equation exactly 0.0); non-trivial = a non-linear rate law is present")
 TRUSTED = ["hand model coq/Model/Sensitivity.v tied by correspondence only", "np.round(.,10) applied by the harness to the model's output"]
 ASSUMPTIONS = ["analytic derivative by sympy on the rate laws of the generated spec (harness oracle)", "error bound = 3 x (leading + next error term of the scheme at the point) + 1e-9"]
 POOL = ["kg*%s", "kg*%s*%s", "kg*%s/(1+%s)", "kg*%s^2/(Kg+%s^2)", "kg*exp(-%s/Kg)", "kg/(Kg+%s)"]
@@ -25,6 +25,26 @@ def gen_cases(seed, tier):
         if all(rx["type"] == "massaction" for rx in spec["reactions"]) and rng.random() < 0.6:
             x[rng.choice(list(x))] = rng.choice([0.004, 0.011, 0.0005])
         cases.append({"spec": spec, "x": x, "t": 0.0})
+    # states at which a rate equation is EXACTLY zero in floating point (fixed points / nullcline points with round numbers): the
+    # derivatives there are as non-zero as anywhere else (seeded change S4_C18: a species whose rate equation evaluates to 0 at the
+    # state was taken to have no dynamics and its row skipped)
+    for _ in range(max(4, n // 6)):
+        kp, kd, xa = rng.choice([(6.0, 2.0, 3.0), (4.0, 0.5, 8.0), (1.5, 0.25, 6.0), (8.0, 2.0, 4.0), (3.0, 0.75, 4.0)])
+        spec = {"species": ["A"], "x0": {"A": 0.0}, "parameters": {"kp": kp, "kd": kd},
+                "reactions": [{"reactants": [], "products": ["A"], "type": "massaction", "params": {"k": "kp"}},
+                              {"reactants": ["A"], "products": [], "type": "massaction", "params": {"k": "kd"}}]}
+        x = {"A": xa}
+        if rng.random() < 0.7:
+            kc, ke = rng.choice([(3.0, 1.5), (2.0, 0.5), (0.5, 0.25)])
+            spec["species"].append("B"); spec["x0"]["B"] = 0.0; spec["parameters"].update({"kc": kc, "ke": ke})
+            spec["reactions"] += [{"reactants": ["A"], "products": ["A", "B"], "type": "massaction", "params": {"k": "kc"}},
+                                  {"reactants": ["B"], "products": [], "type": "massaction", "params": {"k": "ke"}}]
+            x["B"] = kc * xa / ke if rng.random() < 0.7 else kc * xa / ke + 1.0        # on / off the second nullcline
+            if rng.random() < 0.5:
+                spec["parameters"].update({"kh": 8.0, "Kh": 4.0, "nh": 2.0})
+                spec["reactions"].append({"reactants": [], "products": ["B"], "type": "hillpositive", "params": {"k": "kh", "K": "Kh", "n": "nh", "s1": "A"}})
+        if rng.random() < 0.5: rng.shuffle(spec["species"])
+        cases.append({"spec": spec, "x": x, "t": 0.0, "fixed_point": True})
     return cases
 
 def nontrivial(case):
